@@ -22,6 +22,7 @@ import (
 	"context"
 	"errors"
 	"fmt"
+	"hash/fnv"
 	"math/rand"
 	"strconv"
 	"strings"
@@ -78,23 +79,27 @@ const answersTimeout = 5 * time.Second
 // runImpl executes one case on the real interpreter.
 func runImpl(c answersCase) string {
 	i, _ := newInterp("")
+	// The Go encoding of every list cell chain of the case is drawn from the payload (half of the
+	// cases keep the reader's encodings): the abstract program is the same, so are the answers.
+	enc := newEncChooser(c)
 	for _, cl := range c.clauses {
-		ts, err := newTermDecoder().terms(cl) // fresh engine variables per clause
-		if err != nil || len(ts) != 1 {
+		g, err := gtFromWire(cl)
+		if err != nil {
 			return "BAD-CASE clause"
 		}
+		t := enc.build(g, map[int]engine.Variable{}) // fresh engine variables per clause
 		ctx, cancel := context.WithTimeout(context.Background(), answersTimeout)
-		_, err = engine.Call(&i.VM, compound("assertz", ts[0]), engine.Success, nil).Force(ctx)
+		_, err = engine.Call(&i.VM, compound("assertz", t), engine.Success, nil).Force(ctx)
 		cancel()
 		if err != nil {
 			return "assert-" + errWire(err)
 		}
 	}
-	qs, err := newTermDecoder().terms(c.query)
-	if err != nil || len(qs) != 1 {
+	gq, err := gtFromWire(c.query)
+	if err != nil {
 		return "BAD-CASE query"
 	}
-	q := qs[0]
+	q := enc.build(gq, map[int]engine.Variable{})
 	var out []string
 	cyclic := false
 	n, err := solve(&i.VM, q, c.max, answersTimeout, func(env *engine.Env) bool {
@@ -118,6 +123,90 @@ func runImpl(c answersCase) string {
 		out = append(out, "end exhausted")
 	}
 	return strings.Join(out, " ; ")
+}
+
+// encChooser picks, deterministically from the case, how each list of the case is encoded in Go:
+// engine.List / engine.PartialList (what the reader builds), a chain of engine.Cons cells, or - for
+// a proper list of one-character atoms / of character codes - the string encodings
+// engine.CharList / engine.CodeList (what double-quoted text yields).
+type encChooser struct {
+	r    *rand.Rand
+	vary bool
+}
+
+func newEncChooser(c answersCase) *encChooser {
+	h := fnv.New64a()
+	h.Write([]byte(c.query))
+	for _, cl := range c.clauses {
+		h.Write([]byte(cl))
+	}
+	r := rand.New(rand.NewSource(int64(h.Sum64())))
+	return &encChooser{r: r, vary: r.Intn(2) == 0}
+}
+
+func (e *encChooser) build(t *gt, vars map[int]engine.Variable) engine.Term {
+	switch t.kind {
+	case "var":
+		v, ok := vars[t.v]
+		if !ok {
+			v = engine.NewVariable()
+			vars[t.v] = v
+		}
+		return v
+	case "atom":
+		return atom(t.s)
+	case "int":
+		return engine.Integer(t.i)
+	case "flt":
+		return engine.Float(t.f)
+	}
+	if !(t.s == "." && len(t.args) == 2) {
+		args := make([]engine.Term, len(t.args))
+		for i, a := range t.args {
+			args[i] = e.build(a, vars)
+		}
+		return atom(t.s).Apply(args...)
+	}
+	es, tail := t.spine()
+	elems := make([]engine.Term, len(es))
+	for i, x := range es {
+		elems[i] = e.build(x, vars)
+	}
+	proper := tail.is("[]", 0)
+	allChars, allCodes := proper, proper
+	var chars, codes strings.Builder
+	for _, x := range es {
+		if x.kind == "atom" && len([]rune(x.s)) == 1 {
+			chars.WriteString(x.s)
+		} else {
+			allChars = false
+		}
+		if x.kind == "int" && x.i > 0 && x.i < 0xd800 {
+			codes.WriteRune(rune(x.i))
+		} else {
+			allCodes = false
+		}
+	}
+	choice := 0
+	if e.vary {
+		choice = e.r.Intn(4)
+	}
+	switch {
+	case choice >= 2 && allChars:
+		return engine.CharList(chars.String())
+	case choice >= 2 && allCodes:
+		return engine.CodeList(codes.String())
+	case choice == 1:
+		res := e.build(tail, vars)
+		for i := len(elems) - 1; i >= 0; i-- {
+			res = engine.Cons(elems[i], res)
+		}
+		return res
+	case proper:
+		return engine.List(elems...)
+	default:
+		return engine.PartialList(e.build(tail, vars), elems...)
+	}
 }
 
 func bucket(n int) string {
